@@ -129,6 +129,7 @@ type cbView struct {
 	STickets  []cbTicket // gamma_s when it is a ticket sequence (len E), else nil
 	GammaA    []cbTicket
 	Offenders [][32]byte
+	Solicited [cbNPre]bool // preimage i of the genesis service is requested and not yet provided
 }
 
 func cbKey(i byte) types.StateKey {
@@ -297,6 +298,15 @@ func cbDecodeView(kvs types.StateKeyVals) (*cbView, error) {
 	}
 	if err := r.done("psi"); err != nil {
 		return nil, err
+	}
+	for i := 0; i < cbNPre; i++ {
+		blob := cbPreimageBlob(i)
+		k := m.EncodeDelta4Key(cbSvc, types.LookupMetaMapkey{Hash: jamhash.Blake2bHash(blob), Length: types.U32(len(blob))})
+		for _, kv := range kvs {
+			if kv.Key == k {
+				v.Solicited[i] = len(kv.Value) == 1 && kv.Value[0] == 0
+			}
+		}
 	}
 	return v, nil
 }
@@ -610,7 +620,11 @@ func cbAuthor(v *cbView, spec cbAuthorSpec) (*cbAuthored, error) {
 	// preimages extrinsic
 	var pre types.PreimagesExtrinsic
 	for _, i := range spec.Preimages {
-		pre = append(pre, types.Preimage{Requester: cbSvc, Blob: cbPreimageBlob(((i % cbNPre) + cbNPre) % cbNPre)})
+		i = ((i % cbNPre) + cbNPre) % cbNPre
+		if !v.Solicited[i] && !spec.PreOrder {
+			continue // already provided: a valid block must not carry it again (12.40)
+		}
+		pre = append(pre, types.Preimage{Requester: cbSvc, Blob: cbPreimageBlob(i)})
 	}
 	for _, b := range spec.ExtraPre {
 		pre = append(pre, types.Preimage{Requester: cbSvc, Blob: b})
@@ -757,7 +771,7 @@ func cbAuthor(v *cbView, spec cbAuthorSpec) (*cbAuthored, error) {
 
 	// predicted posterior safrole view (6.22, 6.23, 6.13, 6.24, 6.34)
 	post := &cbView{Tau: slot, Iota: v.Iota, Kappa: p.Kappa, Lambda: p.Lambda, GammaK: p.GammaK, GammaZ: p.GammaZ,
-		SKeys: p.SKeys, STickets: p.STickets, Offenders: v.Offenders}
+		SKeys: p.SKeys, STickets: p.STickets, Offenders: v.Offenders, Solicited: v.Solicited}
 	post.Eta[0] = cbH(v.Eta[0][:], hv[:32])
 	post.Eta[1], post.Eta[2], post.Eta[3] = p.Eta123[0], p.Eta123[1], p.Eta123[2]
 	post.GammaA = cbAccumulate(p.Carried, tix)
